@@ -255,3 +255,8 @@ CHECKS["C15"] = ThreadsCheck()
 from harness.checks_parser import ParserCheck  # noqa: E402
 
 CHECKS["C13"] = ParserCheck()
+
+
+from harness.checks_utils import UtilsCheck  # noqa: E402
+
+CHECKS["C19"] = UtilsCheck()
